@@ -670,7 +670,7 @@ CHECK = Check(
 
 MANIFEST = {
     "level_text": "Machine-checked Lean 4 theorems about an executable model of MultipartDecoder (hand-written leftmost matchers for the five compiled regexes, last_newline, _parse_data, next_event, MultiPartParser.parse): the hold-back kernel of DATA/DATA_START is proved chunk-independent for every buffer, continuation and chunk list; the retained search position (rule repaired for F01c: lowered to the last pending --boundary) is proved irrelevant for every buffer and continuation, with no bound on transport padding; and for every body made of a preamble (anything in which preamble_re does not match), parts with arbitrary accepted header blocks (folded lines, odd white space, any line breaks inside the block) and an epilogue, with CRLF, bare-LF or bare-CR delimiter lines (payloads free of the other newline kind), every chunking decodes to the same parts as the single-shot decode, and MultiPartParser.parse returns the same fields and files for every buffer size and read schedule (whole run: PREAMBLE, PART, DATA_START, DATA, EPILOGUE). The model is tied to the code by differential streams over every 2-way (thorough: 3-way) split of a corpus, byte-at-a-time and random k-way splits, and the property oracle runs on the real decoder and MultiPartParser.",
-    "level_note": "Trusted: Lean kernel; extract.py; the correspondence harness; CPython re/bytes/str for the modelled primitives. Whole-body chunk independence is proved for bodies with one line-break convention on all delimiter lines (CRLF / bare LF / bare CR) and any amount of transport padding on them; mixed conventions between delimiter lines and header blocks starting with white space are covered by the kernel theorems and the streams only (OPEN).",
+    "level_note": "Trusted: Lean kernel; extract.py; the correspondence harness; CPython re/bytes/str for the modelled primitives. Whole-body chunk independence is proved for bodies with one line-break convention on all delimiter lines (CRLF / bare LF / bare CR) and any amount of transport padding on them; header blocks may start with white space; chunk lists may contain empty chunks (receive_data is pinned to the source: only None ends the input); mixed conventions between delimiter lines are covered by the kernel theorems and the streams only (OPEN).",
     "technique": "Lean 4 proof (induction over byte lists / chunk lists) + model/code correspondence",
     "design_ref": "DESIGN.md section 4, C01",
 }
